@@ -109,15 +109,15 @@ def evaluate(text, stem, datadir, schema_names, wd):
     res = {"probs": probs, "sig": None, "info": info}
 
     def done(sig=None):
-        res["sig"] = sig or (("mismatch:" + re.sub(r"\d+", "N", probs[0])[:60]) if probs else None)
+        res["sig"] = sig or (("mismatch:" + re.sub(r"\d+", "N", re.sub(r"^sdai_\S+: ", "", probs[0]).split(": [")[0])[:70]) if probs else None)
         return res
 
-    rc, out, err, _ = common.run([SCANNER[0], exp], cwd=scan_dir, timeout=TIMEOUT)
+    rc, out, err, _ = common.run([c17run.TOOLS["schema_scanner"], exp], cwd=scan_dir, timeout=TIMEOUT, env=c17run.tool_env())
     if rc is None:
         info["timeout"] = "schema_scanner"
         return done()
     if rc != 0:
-        rc2, o2, e2, _ = common.run([build.tool("plain", "exp2cxx"), exp], cwd=src_dir, timeout=TIMEOUT)
+        rc2, o2, e2, _ = common.run([c17run.TOOLS["exp2cxx"], exp], cwd=src_dir, timeout=TIMEOUT, env=c17run.tool_env())
         info["rejected"] = True
         if rc2 == 0:
             probs.append("scanner rejects (rc=%s) a file the generator accepts: %s" % (rc, (out + err)[-300:]))
@@ -160,7 +160,7 @@ def evaluate(text, stem, datadir, schema_names, wd):
             continue
         seen_schemas.append(sname)
         # (c) run the generator the way SC_Run_exp2cxx.cmake does
-        rc, out2, err2, _ = common.run([build.tool("plain", "exp2cxx"), c["target_path"]], cwd=d, timeout=TIMEOUT)
+        rc, out2, err2, _ = common.run([c17run.TOOLS["exp2cxx"], c["target_path"]], cwd=d, timeout=TIMEOUT, env=c17run.tool_env())
         if rc is None:
             # no wall-clock verdicts: a tool that does not return within TIMEOUT is reported as inconclusive
             info["timeout"] = "exp2cxx"
@@ -219,7 +219,6 @@ def evaluate(text, stem, datadir, schema_names, wd):
     return done()
 
 
-SCANNER = [None]
 HANG = [False]
 EXCL_HANG = ("multi-schema file in which two schemas each have a supertype entity of the same name (exp2cxx does not return: "
              "ComplexCollect::remove() looks lists up by name; probed at start-up, see extra.hang_probe)")
@@ -245,7 +244,7 @@ def probe_hang():
         os.makedirs(d)
         with open(os.path.join(d, "probe.exp"), "w") as f:
             f.write(_HANG_SRC % (a, b))
-        rc, _o, _e, _t = common.run([build.tool("plain", "exp2cxx"), "probe.exp"], cwd=d, timeout=8)
+        rc, _o, _e, _t = common.run([c17run.TOOLS["exp2cxx"], "probe.exp"], cwd=d, timeout=8, env=c17run.tool_env())
         if rc is None:
             hung = True
             break
@@ -264,8 +263,7 @@ def hang_shape(f):
 
 
 def setup():
-    build.ensure("plain")
-    SCANNER[0] = build.ensure_scanner("plain")
+    c17run.snapshot_tools("c17", "plain", scanner=True)
     HANG[0] = probe_hang()
 
 
